@@ -158,7 +158,17 @@ class ModelServer(_RecMixin, UDSServer):
 
     async def respond(self, request: service.UDSRequest) -> Any:
         pdu = request.pdu
+        rs = self.model.get("reset")
+        if rs:
+            # model["reset"] = {"level", "delay", "latency"}: every answer takes `latency` seconds; ECUReset <level>
+            # is acknowledged at once and performed `delay` seconds later (< 0.5 s), the ECU answers in between
+            await asyncio.sleep(rs["latency"])
         truth = self.state.session
+        if rs and pdu == bytes([0x11, rs["level"]]):
+            asyncio.get_running_loop().call_later(rs["delay"], self.state.reset)
+            resp = _Raw(bytes([0x51, rs["level"]]))
+            self._rec(truth, pdu, resp)
+            return resp
         if _is_dsc(pdu) or (self.sess_read and pdu == b"\x22\xf1\x86"):
             resp = await super().respond(request)  # gallia's default chain + state update
             self._rec(truth, pdu, resp)
